@@ -72,49 +72,71 @@ fn run_lib(case: &str, drv: &mut Driver, rep: &mut Report) {
     let w_err = format!("head -c {} /dev/zero | tr '\\0' e >&2", err);
     let end = if sig == 1 { "kill -9 $$".to_string() } else { format!("exit {}", code) };
     let script = if errfirst == 1 { format!("{}; {}; {}", w_err, w_out, end) } else { format!("{}; {}; {}", w_out, w_err, end) };
-    let mut cmd = Command::new("sh");
-    cmd.arg("-c").arg(&script).stdin(std::process::Stdio::null());
-    let mut b = grep_cli::CommandReaderBuilder::new();
-    b.async_stderr(asyn == 1);
-    let mut rdr = match b.build(&mut cmd) {
-        Ok(r) => r,
-        Err(e) => {
-            rep.notes.push(format!("cannot spawn sh: {}", e));
+    // the reader runs in a thread of its own: a reader that never comes back (e.g. close() waiting for a child
+    // that is blocked on a full pipe) is noticed by the watchdog, its children are killed, the case is reported
+    struct Obs { reads: Vec<usize>, got: usize, read_err: Option<String>, saw_eof: bool, close_res: std::io::Result<()>, second: std::io::Result<()> }
+    let attempt = |limit: std::time::Duration| -> Option<Result<Obs, String>> {
+        let (tx, rx) = std::sync::mpsc::channel();
+        let script = script.clone();
+        std::thread::spawn(move || {
+            let mut cmd = Command::new("sh");
+            cmd.arg("-c").arg(&script).stdin(std::process::Stdio::null());
+            let mut b = grep_cli::CommandReaderBuilder::new();
+            b.async_stderr(asyn == 1);
+            let mut rdr = match b.build(&mut cmd) {
+                Ok(r) => r,
+                Err(e) => { let _ = tx.send(Err(format!("cannot spawn sh: {}", e))); return; }
+            };
+            let mut bufv = vec![0u8; buf.max(1)];
+            let mut reads: Vec<usize> = vec![];
+            let mut got = 0usize;
+            let mut read_err: Option<String> = None;
+            let mut saw_eof = false;
+            loop {
+                if let Some(k) = stop {
+                    if reads.len() >= k { break; }
+                }
+                match rdr.read(&mut bufv) {
+                    Ok(0) => { saw_eof = true; break; }
+                    Ok(n) => {
+                        if bufv[..n].iter().any(|&c| c != b'o') { read_err = Some("foreign byte in the stream".into()); }
+                        got += n;
+                        reads.push(n);
+                    }
+                    Err(e) => {
+                        saw_eof = true; // the model reports the failure of close-at-EOF through the read
+                        read_err = Some(e.to_string());
+                        break;
+                    }
+                }
+            }
+            let close_res = rdr.close();
+            let second = rdr.close();
+            let _ = tx.send(Ok(Obs { reads, got, read_err, saw_eof, close_res, second }));
+        });
+        match rx.recv_timeout(limit) {
+            Ok(r) => Some(r),
+            Err(_) => { kill_descendants(&["sh", "head", "tr"]); None }
+        }
+    };
+    let obs = match attempt(WATCHDOG) {
+        Some(r) => Some(r),
+        None => { note_retry(); attempt(WATCHDOG * 2) }
+    };
+    let Obs { reads, got, read_err, saw_eof, close_res, second } = match obs {
+        Some(Ok(o)) => o,
+        Some(Err(e)) => { rep.notes.push(e); return; }
+        None => {
+            HUNG.store(true, std::sync::atomic::Ordering::SeqCst);
+            rep.violation(Violation {
+                kind: "impl_vs_spec".into(), class: "".into(),
+                tie: "CommandReader: reading / closing a command's output finishes (stopping early never waits for a blocked child)".into(),
+                case: case.to_string(),
+                detail: format!("the search did not finish: read/close did not return within {:?} (twice: re-run with a doubled limit); child: sh -c {:?}", WATCHDOG, script),
+            });
             return;
         }
     };
-    let mut bufv = vec![0u8; buf.max(1)];
-    let mut reads: Vec<usize> = vec![];
-    let mut got = 0usize;
-    let mut read_err: Option<String> = None;
-    let mut saw_eof = false;
-    loop {
-        if let Some(k) = stop {
-            if reads.len() >= k {
-                break;
-            }
-        }
-        match rdr.read(&mut bufv) {
-            Ok(0) => {
-                saw_eof = true;
-                break;
-            }
-            Ok(n) => {
-                if bufv[..n].iter().any(|&c| c != b'o') {
-                    read_err = Some("foreign byte in the stream".into());
-                }
-                got += n;
-                reads.push(n);
-            }
-            Err(e) => {
-                saw_eof = true; // the model reports the failure of close-at-EOF through the read
-                read_err = Some(e.to_string());
-                break;
-            }
-        }
-    }
-    let close_res = rdr.close();
-    let second = rdr.close();
     let model_stop = if saw_eof { "-".to_string() } else { format!("{}", reads.len()) };
     // the status is `sh`'s own: a SIGPIPE only kills the inner `tr`, the script still runs to its `exit`
     let wait = if sig == 1 || code != 0 { "fail" } else { "ok" };
@@ -510,7 +532,7 @@ fn run_premissing(case: &str, ctx: &mut Ctx, drv: &mut Driver, rep: &mut Report)
 
 // ------------------------------------------------------------------ -z
 
-const ZKINDS: &[char] = &['g', 'b', 'x', 'G', 'B', 'X', 'c', 'p', 'n', 'u', 'Z', 'e', 'g', 'x'];
+const ZKINDS: &[char] = &['g', 'b', 'x', 'G', 'B', 'X', 'c', 'p', 'n', 'u', 'Z', 'e', 'g', 'x', 'a', 'q', 'w', 'm'];
 
 fn gen_z(rng: &mut Rng) -> String {
     let n = rng.range(1, 5);
@@ -563,6 +585,15 @@ fn run_z(case: &str, ctx: &mut Ctx, drv: &mut Driver, rep: &mut Report) {
             'X' => { let c = compress("xz", &text); (format!("f{}.xz", i), c[..c.len() * 2 / 3].to_vec(), Some("xz")) }
             'c' => { let mut c = compress("gzip", &text); let m = c.len() / 2; c[m] ^= 0x55; (format!("f{}.gz", i), c, Some("gzip")) }
             'e' => (format!("f{}.gz", i), vec![], Some("gzip")),
+            // the alias extensions of the table: one real round trip each
+            'a' => (format!("f{}.tgz", i), compress("gzip", &text), Some("gzip")),
+            'q' => (format!("f{}.tbz2", i), compress("bzip2", &text), Some("bzip2")),
+            'w' => (format!("f{}.txz", i), compress("xz", &text), Some("xz")),
+            'm' => {
+                let mut c = Command::new("xz");
+                c.args(["--format=lzma", "-c"]);
+                (format!("f{}.lzma", i), run_cmd(&mut c, Some(&text)).stdout, Some("xz"))
+            }
             'p' => (format!("f{}.txt", i), text.clone(), None),
             'n' => (format!("f{}.gz.txt", i), text.clone(), None),
             'u' => (format!("f{}.bin", i), compress("gzip", &text), None),
@@ -572,8 +603,15 @@ fn run_z(case: &str, ctx: &mut Ctx, drv: &mut Driver, rep: &mut Report) {
         rep.branch(&format!("z:kind:{}", k));
         let fs = match tool {
             Some(tool) => {
-                let mut c = Command::new(tool);
-                c.args(["-d", "-c"]).arg(format!("t/{}", name)).current_dir(&dir);
+                // the command the model's rule table gives for this name (program and arguments)
+                let line = drv.ask(&format!("c18.command {}", hex(name.as_bytes())));
+                let toks: Vec<&str> = line.split(' ').collect();
+                if toks.first().map_or(true, |t| *t != tool) {
+                    rep.violation(Violation { kind: "model_vs_spec".into(), class: "".into(), tie: "Model.Process.decompCommand".into(), case: case.to_string(),
+                        detail: format!("{}: the model's rule table answers {:?}, the harness created the file with {}", name, line, tool) });
+                }
+                let mut c = Command::new(toks[0]);
+                c.args(&toks[1..]).arg(format!("t/{}", name)).current_dir(&dir);
                 let o = run_cmd(&mut c, None);
                 FileSpec { name: name.clone(), success: o.code == Some(0), stderr_empty: o.stderr.is_empty(), huge_after_match: false, out: o.stdout }
             }
@@ -679,7 +717,8 @@ fn run_sel(case: &str, ctx: &mut Ctx, drv: &mut Driver, rep: &mut Report) {
     let dir = fresh_dir(&ctx.scratch, &format!("s{}", ctx.counter));
     let t = dir.join("t");
     std::fs::create_dir_all(&t).unwrap();
-    let names = ["a.txt", "b.log", "c.txt.gz", "d.dat", "e.gz"];
+    // F.TXT / g.GZ differ from the globs (*.txt, *.gz) only by case: globs are case sensitive
+    let names = ["a.txt", "b.log", "c.txt.gz", "d.dat", "e.gz", "F.TXT", "g.GZ"];
     for n in names {
         let text = format!("needle direct {}\n", n).into_bytes();
         let bytes = if n.ends_with(".gz") { compress("gzip", format!("needle unzipped {}\n", n).as_bytes()) } else { text };
@@ -806,8 +845,8 @@ fn main() {
          grep_cli::CommandReader to EOF or closed after 0-3 reads, sync and async stderr, read buffers 1-65536; pre: rg --pre with a \
          generated script whose behaviour per file is echo/transform/replace/small+4MiB+interleaved stderr/exit 3 before, during, \
          after output (silent or not)/SIGKILL/huge output after the first match/NUL byte, flags none,-m1,-l,-q, -j1/-j4, plus a \
-         missing/non-executable/directory command; z: rg -z on gzip/bzip2/xz valid, truncated, corrupted, empty, unrecognised names, \
-         .zst without zstd; sel: 12 --pre-glob sets x --pre x -z on 5 files; pipes: random schedules of the two-pipe model. \
+         missing/non-executable/directory command; z: rg -z on gzip/bzip2/xz valid, truncated, corrupted, empty, unrecognised names, the alias extensions .tgz .tbz2 .txz .lzma, \
+         .zst without zstd (the reference command comes from the model's rule table); sel: 12 --pre-glob sets x --pre x -z on 5 files; pipes: random schedules of the two-pipe model. \
          Non-trivial: a failing and a succeeding command in the same run (pre, z), a failing child with output (lib), every sel case. \
          Excluded from comparison: the error verdict when rg may or may not have seen EOF \
          before stopping (small output with a match under -m1/-l/-q).",
